@@ -2080,6 +2080,23 @@ fn c06_feats(t: &model::Target, entry: &str, base: &[u8], reference: &[u8]) -> F
     ]
 }
 
+/// Is the library's output exactly what the recorded C06 finding predicts (RFC scheme, authority,
+/// query and fragment; the path of `model::quirk_merge`)?  Anything else in that class is a
+/// different violation and must not be absorbed by the finding.
+fn c06_matches_quirk(t: &model::Target, base: &[u8], reference: &[u8], got: &[u8]) -> bool {
+    if !(t.branch == "relative-path" && t.empty_on_empty) { return false; }
+    let g = model::split(got);
+    if g.scheme != Some(&t.scheme[..]) || g.authority != t.authority.as_deref() || g.query != t.query.as_deref() || g.fragment != t.fragment.as_deref() { return false; }
+    let (qabs, qsegs) = model::quirk_merge(base, reference);
+    let (gabs, gsegs) = segs_owned(g.path);
+    // an authority makes every non-empty path absolute
+    let qabs = qabs || (t.authority.is_some() && !qsegs.is_empty());
+    // a shield ('/.' before an empty first segment) is only read as such where it is needed: never
+    // behind an authority
+    let gl = if t.authority.is_some() { gsegs.clone() } else { logical(&gsegs) };
+    (gabs == qabs || (qsegs.is_empty() && gsegs.is_empty())) && gl == qsegs
+}
+
 /// Returns the text all entry points agreed on (for the cross-family comparison).
 pub fn c06(ctx: &mut Ctx, base: &str, reference: &str) -> Option<Vec<u8>> {
     let (Ok(bi), Ok(r)) = (Ri::new(base), RiRef::new(reference)) else { ctx.stratum("skipped:rejected-by-library"); return None; };
@@ -2110,6 +2127,9 @@ pub fn c06(ctx: &mut Ctx, base: &str, reference: &str) -> Option<Vec<u8>> {
         ctx.fail("C06.entry-points", f("all"), format!("{} against {}: resolved() = {}, resolve() = {}, into_resolved() = {}", show(b(reference)), show(b(base)), show(&a), show(&bb), show(&c)));
     }
     let detail = |got: &[u8]| format!("{} resolved against {}: library {} ; RFC 3986 5.2 target {} (branch {})", show(b(reference)), show(b(base)), show(got), show(&rec), t.branch);
+    // features of a path deviation carry whether it is exactly the recorded deviation
+    let quirk = c06_matches_quirk(&t, b(base), b(reference), &a);
+    let f = |e: &str| { let mut v = c06_feats(&t, e, b(base), b(reference)); v.push(("matches_recorded_deviation", yn(quirk))); v };
     if std::str::from_utf8(&a).is_err() || !valid(Prod::Ri, &a) {
         ctx.fail("C06.valid", f("resolved"), format!("{} - not a valid URI/IRI", detail(&a)));
         return Some(a);
@@ -2412,13 +2432,18 @@ pub fn c15(ctx: &mut Ctx, a: &str, bb: &str) {
     let r = RiRef::new(rt).unwrap();
     // does resolving the produced reference run into the known C06 finding (an empty segment met on an empty output)?
     let tm = model::resolve(b(bb), &rel);
-    let hits_c06 = tm.branch == "relative-path" && tm.empty_on_empty;
-    let f = || { let mut v = c15_feats(b(a), b(bb)); v.push(("resolution_hits_c06_finding", yn(hits_c06))); v };
+    // ... which explains a failed round trip only if the reference itself is right (its RFC resolution
+    // is the target) and the library's resolution is exactly the recorded deviation
+    let rel_is_right = model::eq_target(&tm, b(a));
+    let in_c06_class = tm.branch == "relative-path" && tm.empty_on_empty && rel_is_right;
+    let f = || { let mut v = c15_feats(b(a), b(bb)); v.push(("resolution_hits_c06_finding", "no".into())); v };
     ctx.call("resolved");
     match crate::ctx::guard(|| { let z = r.resolved(y); (z.as_bytes().to_vec(), *z == *x) }) {
         Err(m) => ctx.fail("C15.panic", f(), format!("resolving {} against {} panicked: {}", show(&rel), show(b(bb)), m)),
         Ok((z, lib_eq)) => {
             let model_eq = model::eq_ref(&z, b(a));
+            let hits_c06 = in_c06_class && c06_matches_quirk(&tm, b(bb), &rel, &z);
+            let f = || { let mut v = c15_feats(b(a), b(bb)); v.push(("resolution_hits_c06_finding", yn(hits_c06))); v };
             if !model_eq || !lib_eq {
                 ctx.fail("C15.roundtrip", f(), format!("a = {}, b = {}: a.relative_to(b) = {} which resolves against b to {} (model ==: {}, library ==: {})", show(b(a)), show(b(bb)), show(&rel), show(&z), model_eq, lib_eq));
             }
